@@ -39,7 +39,7 @@ PROP = dict(
           "Unicode white space, leading/trailing/double separators, alphabet soup, real benchmark units); non-trivial = B, MB or "
           "bytes occurs as a component on either side. 'noop' = finite floats (random bits, short decimals, integers, powers of "
           "two, subnormals); non-trivial = at least two significant digits printed. Distinct = distinct case JSON (64-bit FNV), "
-          "capped at 300000 per shard."),
+          "capped at 300000 per shard. Unit rowlabel: benchstat -row /a,/b on a file whose two row keys (a=v,b=) and (a=,b=v) are labelled alike and differ in magnitude; each row is printed in the scale of its own value."),
     assumptions=[
         "math/big rational arithmetic and strconv.ParseFloat of the Go standard library are correct (trusted oracle base)",
         "the prefix symbols mean their standard SI / IEC factors and the supported range is T..n (decimal) and Ti..none (binary), as documented in benchunit/scale.go",
